@@ -109,10 +109,8 @@ func (o *C18) AfterTx(w *World, r *TxResult) {
 		if o.holders[m.Epoch] == nil {
 			o.holders[m.Epoch] = map[string]string{}
 		}
+		// a claim whose list is absent reports "no holders", the same list as an empty one
 		o.holders[m.Epoch][val] = canonHolders(m.Holders)
-		if m.Holders == nil {
-			o.holders[m.Epoch][val] = "<absent>"
-		}
 	}
 }
 
